@@ -1269,6 +1269,21 @@ func runTAB06(p *Prog, r *RuleRun) {
 			}
 		}
 	}
+	if len(rnames) < 2 {
+		// unnamed results: the variables the success return hands back, in order
+		ast.Inspect(dec.Body, func(n ast.Node) bool {
+			rs, ok := n.(*ast.ReturnStmt)
+			if !ok || len(rs.Results) < 2 {
+				return true
+			}
+			a, okA := ast.Unparen(rs.Results[0]).(*ast.Ident)
+			b, okB := ast.Unparen(rs.Results[1]).(*ast.Ident)
+			if okA && okB && info.Types[rs.Results[0]].Value == nil && info.Types[rs.Results[1]].Value == nil {
+				rnames = []string{a.Name, b.Name}
+			}
+			return true
+		})
+	}
 	dm := map[slot]string{}
 	magicTest := false
 	for _, o := range dops {
